@@ -110,7 +110,8 @@ def run_schedule(tid, nthreads, k, picker, rng, broken_lock=False, client_name="
     """drop_first_of = t: the peer does not answer thread t's first transmission (the client retries after a back-off sleep);
     connfail_first: the very first connection attempt fails (that caller gets a ConnectionException, the others must go on)"""
     clock = C.VClock()
-    line = C.Line(clock, "tcp")
+    kind0 = C.CLIENTS[client_name][0]
+    line = C.Line(clock, kind0)
     sched = Sched(picker)
     if hasattr(picker, "__closure__") and getattr(picker, "_sched_ref", None) is not None:
         picker._sched_ref["s"] = sched
@@ -121,14 +122,19 @@ def run_schedule(tid, nthreads, k, picker, rng, broken_lock=False, client_name="
 
     def on_write(data):
         frames.append(bytes(data))
-        tid_, = struct.unpack(">H", data[:2])
-        addr, qty = struct.unpack(">HH", data[8:12])
+        if kind0 == "tcp":
+            tid_, = struct.unpack(">H", data[:2])
+            uid_ = data[6]
+            addr, qty = struct.unpack(">HH", data[8:12])
+        else:                 # RTU: unit, function, address, quantity, CRC
+            tid_, uid_ = 0, data[0]
+            addr, qty = struct.unpack(">HH", data[2:6])
         if drop_first_of and addr == 100 * drop_first_of and dropped["n"] == 0:
             dropped["n"] = 1
             frames.pop()              # (the retransmission is the same frame: keep NoDup about distinct requests)
             return {"rx": b""}
         rsp = bytes([3, 2 * qty]) + struct.pack(">H", addr) * qty
-        fr = C.pyframe("tcp", tid_, 0, data[6], rsp)
+        fr = C.pyframe(kind0, tid_, 0, uid_, rsp)
         lat = (addr % 3)
         if lat == 0:
             return {"rx": fr}
@@ -284,6 +290,18 @@ def run(prop, tier):
             if j % 2 == 0:
                 traces.append(run_schedule("c%d" % k, nt, kk, p, rng, connfail_first=True))
                 k += 1
+    # the same on a serial RTU client (its send path waits on the client state and the silent interval: more yield points)
+    for nt, kk in ([(2, 2), (3, 2)] if tier == "quick" else [(2, 2), (3, 2), (4, 2)]):
+        ps = pickers(nt, rng, "quick")
+        for j, p in enumerate(ps[::4] if tier == "quick" else ps):
+            traces.append(run_schedule("s%d" % k, nt, kk, p, rng, client_name="serial-rtu", units_differ=(j % 2 == 1)))
+            k += 1
+    # and on the UDP client (datagram socket: recvfrom with a socket time-out instead of select)
+    for nt, kk in ([(3, 2)] if tier == "quick" else [(2, 2), (3, 2), (4, 2)]):
+        ps = pickers(nt, rng, "quick")
+        for j, p in enumerate(ps[::5] if tier == "quick" else ps):
+            traces.append(run_schedule("u%d" % k, nt, kk, p, rng, client_name="udp", units_differ=(j % 2 == 1)))
+            k += 1
     # TLC-generated behaviours: every lock-acquisition order of the model, replayed with and without disturbance
     nord = 0
     for nt, kk in ([(3, 2)] if tier == "quick" else [(2, 2), (3, 2), (2, 3)]):
@@ -315,7 +333,7 @@ def run(prop, tier):
     rep.notes["self_test_noop_lock_rejected"] = "%d of %d" % (nbad, len(broken))
     t = traces[0]
     rep.sample({"id": t["id"], "threads": t["nthreads"], "k": t["k"], "events": t["ev"][:14], "calls": t["calls"]})
-    rep.cov["rule"] = ("cases = schedules of 2-4 real threads x 2-3 transactions on one ModbusTcpClient under a deterministic scheduler "
+    rep.cov["rule"] = ("cases = schedules of 2-4 real threads x 2-3 transactions on one ModbusTcpClient (and on one serial RTU client) under a deterministic scheduler "
                        "(pre-emption possible at connect / send / select / recv / virtual sleep / every lock operation; replies of different "
                        "lengths and latencies): every placement of one pre-emption of each thread plus seeded random and strided schedules; "
                        "distinct_nontrivial counts distinct orders of send/done events among accepted traces.")
